@@ -13,7 +13,7 @@ The real extrapolation.dea3 (and max_abs) executed on symbolic reals: one path, 
 from fractions import Fraction
 import numpy as np
 import z3
-from ndvc import solve
+from ndvc import solve, xcheck
 from ndvc.sym import R, C, real, lift, CTX, explore, NeedsConcrete, _frac
 from ndvc.arr import SymArr, asobj
 from ndvc.overlay import installed
@@ -28,7 +28,8 @@ ASSUMPTIONS = ['inputs finite reals; |correction| <= 1e150 (moderate magnitude) 
                'guards taken from the documented QUADPACK criterion: converged if err_i <= max(|e_i|,|e_{i-1}|)*EPS or '
                '|(1/d2 - 1/d1 + TINY) * e_1| <= 1e-4']
 NOT_DECIDED = ['rounding multiples of machine epsilon; magnitudes near overflow']
-BOUNDED = ['element-wise clause checked on shapes (), (3,), (2,2) (uniform argument; only these shapes executed)']
+BOUNDED = ['element-wise clause checked on shapes (), (3,), (2,2) (uniform argument; only these shapes executed)',
+           'integer-terms: 28 concrete integer-typed triples compared with the same numbers as floats (executed with the real numpy, not proved)']
 QUANTIFIED = 'L, a, q and arbitrary triples (e0, e1, e2): universally quantified reals'
 
 
@@ -37,7 +38,8 @@ def enumerated(tier):
 
 
 def groups(tier):
-    return [('geometric', ('geometric',)), ('total', ('total',)), ('frame', ('frame',)), ('elementwise', ('elementwise',))]
+    return [('geometric', ('geometric',)), ('total', ('total',)), ('frame', ('frame',)), ('elementwise', ('elementwise',)),
+            ('integer-terms', ('intterms',))]
 
 
 def functions_under_contract():
@@ -118,6 +120,10 @@ def run_total():
                    note=repr(paths[0].exc) if paths and paths[0].exc else '%d paths' % len(paths))
         if len(paths) != 1 or paths[0].exc is not None:
             return
+        from fractions import Fraction as Fr
+        for tri in [(1.0, 1.5, 1.75), (2.0, -1.0, 0.5), (1.0, 1.0, 2.0), (0.0, 0.0, 0.0), (1.0, 2.0, 3.0), (3.0, 3.0, 3.0), (1e-3, -2e5, 7.0), (1.0, 2.0, 2.0)]:
+            xcheck.defer('T:engine==CPython%s' % (tri,), paths, {'e0': Fr(tri[0]), 'e1': Fr(tri[1]), 'e2': Fr(tri[2])},
+                         (lambda tri=tri: tuple(ex.dea3(*tri))), rtol=1e-9, atol=1e-300)
         res, err = paths[0].value
         res, err = lift(res[0]), lift(err[0])
         tt = z3.BoolVal(True)
@@ -140,6 +146,7 @@ def run_total():
                                                         lift(e_[0]).dfn if lift(e_[0]).dfn is not None else tt), [])
                 solve.prove('T:%s:returns-last-term' % nm, lift(r_[0]).t == lift(R(tri[2])).t, [])
                 solve.prove('T:%s:abserr>=0' % nm, lift(e_[0]).t >= 0, [])
+    xcheck.flush()
     return dict()
 
 
@@ -225,6 +232,25 @@ def run_elementwise():
                     all(lift(es[i]).t.eq(lift(err[i + 1]).t) for i in range(2))
                 solve.fact('E:symmetric=True-trims-one-element-from-each-output', ok)
                 solve.twin('E:elem0==elem1', lift(res[0]).t == lift(res[1]).t, [])
+        # symmetric=True for every leading length: n > 1 triples give n-1 outputs (first n-1 results, last n-1 errors)
+        for shape in [(2,), (4,), (2, 1), (2, 3), (3, 2)]:
+            arrs = []
+            for nm in ('u', 'v', 'w'):
+                a = np.empty(shape, dtype=object)
+                for k, idx in enumerate(np.ndindex(shape)):
+                    a[idx] = real('%s_%d' % (nm, k))
+                arrs.append(a.view(SymArr))
+            full = explore(lambda: ex.dea3(*arrs))
+            ps = explore(lambda: ex.dea3(*arrs, symmetric=True))
+            ok = len(full) == 1 and len(ps) == 1 and full[0].exc is None and ps[0].exc is None
+            solve.fact('E:symmetric,shape%s:single-path' % (shape,), ok)
+            if ok:
+                (res, err), (rs, es) = full[0].value, ps[0].value
+                n_ = shape[0]
+                okk = np.shape(rs) == (n_ - 1,) + shape[1:] and np.shape(es) == (n_ - 1,) + shape[1:] and \
+                    all(lift(a_).t.eq(lift(b_).t) for a_, b_ in zip(asobj(rs).ravel(), asobj(res)[:-1].ravel())) and \
+                    all(lift(a_).t.eq(lift(b_).t) for a_, b_ in zip(asobj(es).ravel(), asobj(err)[1:].ravel()))
+                solve.fact('E:symmetric,shape%s:outputs-are-result[:-1]-and-abserr[1:]' % (shape,), okk, note=str((np.shape(rs), np.shape(es))))
         # symmetric with a single element: nothing trimmed
         ps = explore(lambda: ex.dea3(real('u'), real('v'), real('w'), symmetric=True))
         rs, es = ps[0].value
@@ -232,11 +258,24 @@ def run_elementwise():
     return dict()
 
 
+def run_intterms():
+    from ndvc.concrete import dea3_integer_cases
+    cnt, bad = dea3_integer_cases(mods()['ex'].dea3)
+    solve.fact('integer-typed-terms-give-the-result-of-the-same-terms-as-floats[%d cases]' % cnt, not bad, kind='bounded', note=str(bad[:2])[:300])
+    return {}
+
+
 def run_group(args):
+    if args[0] == 'intterms':
+        return run_intterms()
     return {'geometric': run_geometric, 'total': run_total, 'frame': run_frame, 'elementwise': run_elementwise}[args[0]]()
 
 
 def replay_case(ob):
+    if ob['name'].startswith('integer-terms/'):
+        return dict(kind='C13.intterms')
+    if 'symmetric' in ob['name']:
+        return dict(kind='C13.symmetric')
     mdl = ob.get('model') or {}
     nm = ob['name']
     if nm.startswith('geometric/'):
